@@ -42,6 +42,21 @@ def gen_cases(rng, tier, scale):
                                   ('{{#with zz}}x{{/with}}', {}), ('{{#each zz}}x{{else}}E{{/each}}', {}),
                                   ('{{#with n}}x{{/with}}', {'n': None}), ('{{n}}{{f}}{{z}}{{e}}', {'n': None, 'f': False, 'z': 0, 'e': ''})]):
         cases.append(rcase(f'l{k}', tpl, d, pre=['strict 1'], entry=4, kind='fixed', idx=k, tags=['fixed']))
+    # third clause: a template all of whose paths designate EXISTING values (null, false, 0, "", [], {} included)
+    # renders identically in both modes — each falsy value routed through every position kind
+    FALSY = [None, False, 0, '', [], {}]
+    POS = ['{{v}}', '{{o.k}}', '{{arr.[0]}}', '{{@root.v}}', '{{#if v}}T{{else}}F{{/if}}', '{{lookup o "k"}}', '{{lookup arr 0}}',
+           '{{> p k=v}}', '{{> p2 k=o.k j=arr.[0]}}', '{{> q o}}', '{{#with o}}[{{k}}]{{/with}}', '{{#each arr}}<{{this}}>{{/each}}',
+           '{{#each arr as |x i|}}<{{x}}{{i}}>{{/each}}', '{{eq v null}}', '{{#with o as |w|}}{{w.k}}{{/with}}', '{{> p k=null}}',
+           '{{#each o}}{{@key}}={{this}};{{/each}}', '{{> (lookup this "pn") k=v}}', '{{#> p k=v}}d{{/p}}', '{{id (lookup o "k")}}']
+    kk = 0
+    for v in FALSY:
+        for pos in POS:
+            d = {'v': v, 'o': {'k': v}, 'arr': [v, 1], 'pn': 'p'}
+            for st in (0, 1):
+                cases.append(rcase(f'ex{kk}s{st}', 'a' + pos + 'z', d, pre=['probes', f'strict {st}'], entry=0,
+                                   partials={'p': '[{{k}}]', 'p2': '[{{k}}{{j}}]', 'q': '({{k}})'}, kind='exist', pair=('ex', kk), strict=st, tags=['existing-falsy']))
+            kk += 1
     return cases
 
 FIXED = {0: ('err', 'MissingVariable', '-'), 1: ('err', 'MissingVariable', '-'), 2: ('ok', ''),
@@ -79,13 +94,15 @@ def oracle_all(byid):
     out = []
     pairs = {}
     for cid, (c, mo, io) in byid.items():
-        if c['kind'] == 'pair':
+        if c['kind'] in ('pair', 'exist'):
             pairs.setdefault(c['pair'], {})[c['strict']] = (c, io)
     for k, d in pairs.items():
         if 0 in d and 1 in d:
             rs, rn = res_of(d[1][1]), res_of(d[0][1])
             if rs['kind'] == 'ok' and (rn['kind'] != 'ok' or rn['out'] != rs['out']):
                 out.append((d[1][0], f'strict render succeeded with {rs["out"]!r} but non-strict gives {rn}'))
+            if d[1][0]['kind'] == 'exist' and rn['kind'] == 'ok' and (rs['kind'] != 'ok' or rs['out'] != rn['out']):
+                out.append((d[1][0], f'every path designates an existing value, non-strict renders {rn["out"]!r}, strict gives {rs.get("out", rs.get("reason"))!r} {rs.get("payload", "")}'))
             if rs['kind'] == 'err' and rs['reason'] not in ('MissingVariable', 'ParamNotFoundForName') and rn['kind'] == 'ok':
                 out.append((d[1][0], f'strict mode changed a success into a non-missing error {rs["reason"]}'))
     return out
